@@ -70,6 +70,13 @@ Proof.
   destruct a; reflexivity.
 Qed.
 
+Lemma varstr_32 h : length h = 32%nat -> lib_varstr h = Some (x20 :: h).
+Proof.
+  intros Hl. unfold lib_varstr. rewrite Hl.
+  destruct h as [|a [|b r]]; [discriminate|discriminate|].
+  destruct a; reflexivity.
+Qed.
+
 Lemma bech32m_const_not_1 : (1 =? cfg_BECH32M_CONST) = false.
 Proof. reflexivity. Qed.
 
@@ -144,7 +151,7 @@ Qed.
 (* ---------------------------------------------------------------- main theorem *)
 
 (* For every network of the regenerated table, every script type / encoding that has a standard form
-   (P2PKH, P2SH, P2SH-P2WPKH in base58; P2WPKH, P2WSH in bech32) and every data string that is not itself
+   (P2PKH, P2SH, P2SH-P2WPKH, P2SH-P2WSH in base58; P2WPKH, P2WSH in bech32) and every data string that is not itself
    a hexadecimal text (all public key encodings are not), the address computed by Address.__init__ is the standard
    one — provided the 20/32-byte hash that is finally encoded does not read as hexadecimal text
    (to_bytes would unhexlify it; see address_hash_hexlike_refuted).  P2TR from a key is not standard
@@ -176,6 +183,11 @@ Proof.
     rewrite hash_bytes_data in * by (assumption || discriminate). cbn [st_in existsb st_eqb orb] in *.
     rewrite varstr_20 in * by apply hash160_length.
     rewrite b58_of_parts by assumption. unfold spec_p2sh_p2wpkh, spec_p2sh, spec_redeem_p2wpkh in Hs. exact Hs.
+  - (* p2sh_p2wsh base58 *)
+    cbv beta iota zeta delta [lib_witness_type lib_encoding st_in existsb st_eqb enc_is wt_is orb] in *.
+    rewrite hash_bytes_data in * by (assumption || discriminate). cbn [st_in existsb st_eqb orb] in *.
+    rewrite varstr_32 in * by apply sha256_length.
+    rewrite b58_of_parts by assumption. unfold spec_p2sh_p2wsh, spec_p2sh, spec_redeem_p2wsh in Hs. exact Hs.
   - (* p2wpkh bech32 *)
     cbv beta iota zeta delta [lib_witness_type lib_encoding st_in existsb st_eqb enc_is wt_is orb] in *.
     rewrite hash_bytes_data in * by (assumption || discriminate). cbn [st_in existsb st_eqb orb] in *.
